@@ -321,6 +321,10 @@ def _free_scenarios(K6):
          "maxCostOps": False, "ttls": [40], "costs": [1], "ample": True, "sleep": False, "pattern": "stall", "yield": False},
         {"name": "shrinkrace", "cfg": _hc([1, 2], MaxCost=10, BufCap=64), "goroutines": 3, "opsPer": 800, "clear": False,
          "maxCostOps": True, "ttls": [], "costs": [5], "ample": False, "sleep": False, "pattern": "shrinkrace", "yield": False},
+        {"name": "bigitem", "cfg": _hc(list(range(1, 32)), MaxCost=30, BufCap=64), "goroutines": 1, "opsPer": 1, "clear": False,
+         "maxCostOps": False, "ttls": [], "costs": [1] * 30 + [25], "costByKey": True, "ample": False, "sleep": False, "pattern": "bigitem", "yield": False},
+        {"name": "pressure", "cfg": _hc(K6, MaxCost=1000, BufCap=64, D=1, CostFn=1), "goroutines": 1, "opsPer": 1, "clear": False,
+         "maxCostOps": False, "ttls": [1], "costs": [0], "ample": True, "sleep": False, "pattern": "pressure", "yield": False},
         {"name": "expireswap", "cfg": _hc([1, 2], "CollHash", "CollConf", MaxCost=1000, BufCap=64, D=5), "goroutines": 9, "opsPer": 16,
          "clear": False, "maxCostOps": False, "ttls": [1], "costs": [1], "ample": True, "sleep": True, "pattern": "expireswap", "yield": True, "park": True, "repeat": 2},
         {"name": "sweeprace", "cfg": _hc([1, 2, 3], MaxCost=100000, BufCap=64, D=1), "goroutines": 6, "opsPer": 150, "clear": False,
